@@ -747,6 +747,62 @@ impl Family for DpBlock {
     }
 }
 
+/// RIGHTSxEP: both kings and all four rooks at home with every subset of the 16 castling rights, a
+/// white pawn that has just made its double step on every file (e.p. square set, Black to move),
+/// optionally a black pawn next to it on either side, optionally one more piece (N, B, Q of either
+/// colour) anywhere. Castling rights, a pending e.p. square and captures of home rooks meet here.
+pub struct RightsEp;
+impl Family for RightsEp {
+    fn name(&self) -> String {
+        "RIGHTSxEP".into()
+    }
+    fn len(&self) -> u64 {
+        16 * 8 * 3 * 7 * 64
+    }
+    fn decode(&self, mut i: u64) -> Option<Pos> {
+        let mut take = |n: u64| -> u64 {
+            let v = i % n;
+            i /= n;
+            v
+        };
+        let rights = take(16) as u8;
+        let f = take(8) as i8;
+        let side = take(3) as i8 - 1; // -1, 0 (none), +1
+        let xkind = take(7) as usize;
+        let xsq = take(64) as u8;
+        if xkind == 0 && xsq != 0 {
+            return None;
+        }
+        let mut p = Pos::empty();
+        p.board[60] = pc(WHITE, KING);
+        p.board[56] = pc(WHITE, ROOK);
+        p.board[63] = pc(WHITE, ROOK);
+        p.board[4] = pc(BLACK, KING);
+        p.board[0] = pc(BLACK, ROOK);
+        p.board[7] = pc(BLACK, ROOK);
+        p.castle = rights;
+        p.board[sq_at(f, 4)? as usize] = pc(WHITE, PAWN);
+        if side != 0 {
+            p.board[sq_at(f + side, 4)? as usize] = pc(BLACK, PAWN);
+        }
+        p.ep = sq_at(f, 5)?;
+        let keep_free = [sq_at(f, 5)?, sq_at(f, 6)?];
+        if xkind != 0 {
+            let piece = [pc(WHITE, KNIGHT), pc(WHITE, BISHOP), pc(WHITE, QUEEN), pc(BLACK, KNIGHT), pc(BLACK, BISHOP), pc(BLACK, QUEEN)][xkind - 1];
+            if p.board[xsq as usize] != EMPTY || keep_free.contains(&xsq) {
+                return None;
+            }
+            p.board[xsq as usize] = piece;
+        }
+        p.stm = BLACK;
+        if p.is_legal_position() {
+            Some(p)
+        } else {
+            None
+        }
+    }
+}
+
 /// PAWN7: a white pawn on its 7th rank (every file), both kings, one further white piece and one
 /// black piece (every pair of kinds from Q R B N) anywhere, both sides to move: promotions and
 /// under-promotions with something to lose or to win on the way.
